@@ -193,7 +193,7 @@ theorem frame_clean (env : Env) (ic ic' : Interceptors) :
           rw [hr] at hch
           rw [hch]
           simp only
-          have ht : tryChild env ic c rp ps = .miss (ps2.erase c.seg.name) := by
+          have ht : tryChild env ic c rp ps = .miss (restoreParam ps ps2 c.seg.name) := by
             unfold tryChild; rw [hm]; simp only [hr]
           rw [tryChild_miss List.mem_cons_self htrack ht]
           exact htail cs2 hcs2
